@@ -9,7 +9,7 @@ package server
 // template.(*Template).Execute renders into w and reads v (collate copies every message
 // before merging), so the only caller-visible memory it writes is the buffer behind w.
 //@ extern func template.(*Template).Execute
-//@   modifies w.ghost_len
+//@   modifies boxed(w)
 // tokenize is the runner's Tokenize method value (an HTTP round trip to the runner): it reads
 // the string and writes nothing in the caller's memory.
 //@ extern func (tokenizeFunc)
